@@ -503,6 +503,20 @@ def generate(repo):
     need(m is not None, 'decompress_to_ntf: BUF_SZ not found')
     n_copy = len(re.findall(r'bufwriter\.write_all\(&buf\[\.\.(?:bytes_read|num_bytes)\]\)', fn_))
     need(n_copy == 4, f'decompress_to_ntf: expected 4 read/write_all copy loops (tar, bz2, gz, lz4), found {n_copy}')
+    # BlockReader::new, gz arm: the only refusal by size compares the size of the FILE ON DISK with GZ_MAX_SZ; no limit is put on the
+    # uncompressed size the trailer announces (a streamed reader needs none). A limit on the uncompressed size refuses every .gz log
+    # that inflates beyond it although the same bytes print as a plain file (seeded change C05-e)
+    _, bn, _ = find_fn(br, 'new')
+    bnf = flat(strip_trace(bn))
+    mz = re.search(r'const GZ_MAX_SZ: FileSz = ([^;]+);', br)
+    need(mz is not None, 'blockreader.rs: GZ_MAX_SZ not found')
+    cmps = re.findall(r'if (\w+) > BlockReader::GZ_MAX_SZ', bnf)
+    need(len(cmps) >= 1, 'BlockReader::new: no comparison with GZ_MAX_SZ found')
+    gz_limit_on_disk_size = cmps == ['filesz']
+    L.append('/-- `BlockReader::new` (gz): the size limit `GZ_MAX_SZ` is compared with the size of the .gz file on disk only (`true`); `false`: also / instead')
+    L.append('with another quantity (e.g. the uncompressed size read from the trailer) -/')
+    L.append(f'def GZ_LIMIT_ON_DISK_SIZE_ONLY : Bool := {"true" if gz_limit_on_disk_size else "false"}')
+    L.append(f'def GZ_MAX_SZ : Nat := {int_lit(mz.group(1))}')
     L.append('/-- `decompress_to_ntf`: buffer of the copy loops -/')
     L.append(f'def NTF_BUF_SZ : Nat := {int_lit(m.group(1))}')
     # every `break` of the function: the tar member search stops at the member found; each of the four copy loops may
